@@ -323,6 +323,19 @@ Structured(ci, M, s, uq, len) ==
           Mut(ci, "q.swap_first_rows", vl, IF uq >= 2 THEN <<Copy(vs.o, rb, <<vs.o + rb, rb>>, <<>>), Copy(vs.o + rb, rb, <<vs.o, rb>>, <<>>)>> ELSE <<>>)}
          : g \in QueryGroups(s)}
   \cup
+  \* --- batch Merkle proofs: one surplus digest appended to the last node vector of an opening proof, with the
+  \*     vector's count and the byte count of the proof adjusted (a well-formed encoding of a proof with one
+  \*     node more than the openings need) ---
+  UNION {LET pl == Fld(M, g, IF g \in QueryGroups(s) THEN "q.plen" ELSE "fl.plen")
+             lp == CHOOSE q \in 1..Len(M) : M[q].g = g /\ M[q].n = "bmp.nodes" /\ \A r \in (q + 1)..Len(M) : ~(M[r].g = g /\ M[r].n = "bmp.nodes")
+             nd == M[lp]
+             vc == M[lp - 1]
+         IN IF nd.l >= s.D /\ vc.n = "bmp.vcnt"
+              THEN {Mut(ci, "bmp.extra_node", vc, <<SetInt(pl, pl.v + s.D), SetInt(vc, vc.v + 1),
+                                                     Copy(nd.o + nd.l, 0, <<nd.o + nd.l - s.D, s.D>>, <<>>)>>)}
+              ELSE {}
+         : g \in {h \in QueryGroups(s) \cup {Group(j) : j \in 0..(s.layers - 1)} : Has(M, h, "bmp.nodes")}}
+  \cup
   \* --- OOD frame: one more element with the length adjusted; frame-size byte ---
   {Mut(ci, "ood.extra_trace_elem", tl, <<SetInt(tl, tl.v + s.ex), Copy(tv.o + tv.l, 0, <<tv.o, s.ex>>, <<>>)>>),
    Mut(ci, "ood.extra_quotient_elem", ql, <<SetInt(ql, ql.v + s.ex), Copy(qv.o + qv.l, 0, <<qv.o, s.ex>>, <<>>)>>),
